@@ -293,7 +293,16 @@ func w1GenLease(r *rand.Rand, c *simrt.Case, nclients, maxOps int) {
 		case 2:
 			c.Faults = append(c.Faults, simrt.Fault{Kind: "etcd.unavail", Op: "etcd.txn", Nth: r.IntN(6)})
 		case 3:
-			c.Faults = append(c.Faults, simrt.Fault{Kind: "etcd.slow", Op: "etcd.", Nth: r.IntN(10), Arg: int64(200+r.IntN(5000)) * 1e6})
+			arg := int64(200+r.IntN(5000)) * 1e6
+			op := "etcd."
+			if r.IntN(3) == 0 {
+				// an acquisition (or any other etcd round trip) that takes longer than the produce request's own
+				// timeout_ms (5 s here): the request may fail, it may not go ahead without the lease
+				arg, op = int64(5500+r.IntN(9000))*1e6, "etcd.txn"
+				c.Faults = append(c.Faults, simrt.Fault{Kind: "etcd.slow", Op: op, Nth: r.IntN(8), Count: 1 + r.IntN(4), Arg: arg})
+				continue
+			}
+			c.Faults = append(c.Faults, simrt.Fault{Kind: "etcd.slow", Op: op, Nth: r.IntN(10), Arg: arg})
 		}
 	}
 }
